@@ -1368,6 +1368,8 @@ func (c *batchCommandsClient) recreateStreamingClient(err error, streamClient *b
 	waitConnReady := atomic.CompareAndSwapUint64(&c.epoch, *epoch, *epoch+1)
 	if !waitConnReady {
 		*epoch = atomic.LoadUint64(&c.epoch)
+		// The requests pending on this broken stream will never be answered either.
+		c.failPendingRequests(err, streamClient.forwardedHost)
 		if err := streamClient.recreate(c.conn); err != nil {
 			logutil.BgLogger().Info(
 				"batchRecvLoop re-create streaming fail",
